@@ -76,6 +76,14 @@ func directedE() []ecase {
 		ecase{Spec: plainEqual, X: u(0xc0, 0x3e, 1, 0xc8, 0x3e, 2), Y: u(0xc8, 0x3e, 2, 0xc0, 0x3e, 1), Label: "unknown reordered across numbers"},
 		ecase{Spec: plainEqual, X: u(0xc0, 0x3e, 1, 0xc0, 0x3e, 2), Y: u(0xc0, 0x3e, 2, 0xc0, 0x3e, 1), Label: "unknown reordered within a number"},
 		ecase{Spec: plainEqual, X: u(0xc0, 0x3e, 1), Y: u(), Label: "unknown vs none"},
+		// a repeated number: every occurrence counts, not only the last one (same total length)
+		ecase{Spec: plainEqual, X: u(0xc0, 0x3e, 1, 0xc0, 0x3e, 2), Y: u(0xc0, 0x3e, 3, 0xc0, 0x3e, 2), Label: "unknown repeated number, first occurrence differs"},
+		ecase{Spec: plainEqual, X: u(0xc0, 0x3e, 1, 0xc8, 0x3e, 9, 0xc0, 0x3e, 2), Y: u(0xc0, 0x3e, 3, 0xc0, 0x3e, 2, 0xc8, 0x3e, 9), Label: "unknown repeated number interleaved, first occurrence differs"},
+		ecase{Spec: plainEqual, X: u(0xc0, 0x3e, 1, 0xc8, 0x3e, 9, 0xc0, 0x3e, 2), Y: u(0xc0, 0x3e, 1, 0xc0, 0x3e, 2, 0xc8, 0x3e, 9), Label: "unknown repeated number interleaved, equal"},
+		// two wire types under one number (varint 0 / empty bytes: same length), and a group
+		ecase{Spec: plainEqual, X: u(0xc0, 0x3e, 0, 0xc0, 0x3e, 2), Y: u(0xc2, 0x3e, 0, 0xc0, 0x3e, 2), Label: "unknown wire type differs in a first occurrence"},
+		ecase{Spec: plainEqual, X: u(0xc3, 0x3e, 0x08, 1, 0xc4, 0x3e, 0xc8, 0x3e, 2), Y: u(0xc8, 0x3e, 2, 0xc3, 0x3e, 0x08, 1, 0xc4, 0x3e), Label: "unknown group reordered across numbers"},
+		ecase{Spec: plainEqual, X: u(0xc3, 0x3e, 0x08, 1, 0xc4, 0x3e, 0xc0, 0x3e, 2), Y: u(0xc3, 0x3e, 0x08, 3, 0xc4, 0x3e, 0xc0, 0x3e, 2), Label: "unknown group content differs, later record equal"},
 	)
 	return cs
 }
